@@ -28,13 +28,14 @@
 (*     idle / half-line connections are still open; after a fault this is the  *)
 (*     statement that the listener accepts again;                              *)
 (*  T6 every idle client sees its connection closed by the relay (Stop or      *)
-(*     read timeout) and not never.                                            *)
+(*     read timeout) and not never; with a read timeout configured the idle    *)
+(*     clients of the first phase see it before the barrier, i.e. without Stop.*)
 EXTENDS ListenerOps, Json, TLC, TLCExt, IOUtils
 
 TLog == ndJsonDeserialize("trace.ndjson")
 
-VARIABLES l, h, wb, cl, das, hs, rb, e, tm, out, du, uout, ucur, stop
-tvars == <<l, h, wb, cl, das, hs, rb, e, tm, out, du, uout, ucur, stop>>
+VARIABLES l, h, wb, cl, das, hs, rb, e, tm, out, du, uout, ucur, stop, scl
+tvars == <<l, h, wb, cl, das, hs, rb, e, tm, out, du, uout, ucur, stop, scl>>
 
 ASSUME TLCSet(1, 0)
 
@@ -54,7 +55,7 @@ Avail(c) == IF wb[c] = 0 THEN 0 ELSE h.wcut[c][wb[c]]
 
 Empty == [sym |-> <<>>, dsym |-> <<>>]
 TInit == /\ l = 1 /\ h = Empty /\ wb = <<>> /\ cl = <<>> /\ das = <<>> /\ hs = <<>> /\ rb = <<>> /\ e = <<>>
-         /\ tm = <<>> /\ out = <<>> /\ du = <<>> /\ uout = <<>> /\ ucur = 0 /\ stop = "no"
+         /\ tm = <<>> /\ out = <<>> /\ du = <<>> /\ uout = <<>> /\ ucur = 0 /\ stop = "no" /\ scl = <<>>
 
 THist == /\ Is("hist") /\ h' = Ev
          /\ wb' = [c \in 1..Len(Ev.sym) |-> 0] /\ cl' = [c \in 1..Len(Ev.sym) |-> FALSE]
@@ -62,25 +63,25 @@ THist == /\ Is("hist") /\ h' = Ev
          /\ rb' = [c \in 1..Len(Ev.sym) |-> 0] /\ e' = [c \in 1..Len(Ev.sym) |-> 0]
          /\ tm' = [c \in 1..Len(Ev.sym) |-> "none"] /\ out' = [c \in 1..Len(Ev.sym) |-> <<>>]
          /\ du' = [d \in 1..Len(Ev.dsym) |-> "none"] /\ uout' = [d \in 1..Len(Ev.dsym) |-> <<>>]
-         /\ ucur' = 0 /\ stop' = "no"
+         /\ ucur' = 0 /\ stop' = "no" /\ scl' = [c \in 1..Len(Ev.sym) |-> FALSE]
 
 Same(vs) == UNCHANGED vs
 TSkip == /\ l <= Len(TLog) /\ Ev.ev \in {"we", "use", "cfail", "fault", "blocked", "end"} /\ l' = l + 1
-         /\ UNCHANGED <<h, wb, cl, das, hs, rb, e, tm, out, du, uout, ucur, stop>>
+         /\ UNCHANGED <<h, wb, cl, das, hs, rb, e, tm, out, du, uout, ucur, stop, scl>>
 TDial == /\ Is("cdial") /\ das' = [das EXCEPT ![Ev.c] = (stop = "ret")]
-         /\ UNCHANGED <<h, wb, cl, hs, rb, e, tm, out, du, uout, ucur, stop>>
+         /\ UNCHANGED <<h, wb, cl, hs, rb, e, tm, out, du, uout, ucur, stop, scl>>
 \* T4: nothing listens after StopReturn
 TConn == /\ Is("cconn") /\ ~das[Ev.c]
-         /\ UNCHANGED <<h, wb, cl, das, hs, rb, e, tm, out, du, uout, ucur, stop>>
+         /\ UNCHANGED <<h, wb, cl, das, hs, rb, e, tm, out, du, uout, ucur, stop, scl>>
 TWb == /\ Is("wb") /\ Ev.j = wb[Ev.c] + 1 /\ wb' = [wb EXCEPT ![Ev.c] = Ev.j]
-       /\ UNCHANGED <<h, cl, das, hs, rb, e, tm, out, du, uout, ucur, stop>>
+       /\ UNCHANGED <<h, cl, das, hs, rb, e, tm, out, du, uout, ucur, stop, scl>>
 TCclose == /\ Is("cclose") /\ cl' = [cl EXCEPT ![Ev.c] = TRUE]
-           /\ UNCHANGED <<h, wb, das, hs, rb, e, tm, out, du, uout, ucur, stop>>
+           /\ UNCHANGED <<h, wb, das, hs, rb, e, tm, out, du, uout, ucur, stop, scl>>
 \* T6: the client's own read deadline (60 s) never fires
-TSclosed == /\ Is("sclosed") /\ Ev.err \in {"eof", "reset"}
+TSclosed == /\ Is("sclosed") /\ Ev.err \in {"eof", "reset"} /\ scl' = [scl EXCEPT ![Ev.c] = TRUE]
             /\ UNCHANGED <<h, wb, cl, das, hs, rb, e, tm, out, du, uout, ucur, stop>>
 THstart == /\ Is("hstart") /\ stop # "ret" /\ hs[Ev.c] = "none" /\ hs' = [hs EXCEPT ![Ev.c] = "run"]
-           /\ UNCHANGED <<h, wb, cl, das, rb, e, tm, out, du, uout, ucur, stop>>
+           /\ UNCHANGED <<h, wb, cl, das, rb, e, tm, out, du, uout, ucur, stop, scl>>
 TRd == /\ Is("rd") /\ stop # "ret" /\ hs[Ev.c] = "run"
        /\ Ev.err \in {"none", "eof", "timeout", "closed", "reset"}
        /\ (Ev.err = "timeout" => h.rt_us > 0 /\ Ev.blocked_us >= h.rt_us)           \* T3
@@ -91,34 +92,34 @@ TRd == /\ Is("rd") /\ stop # "ret" /\ hs[Ev.c] = "run"
           IN  /\ rb' = [rb EXCEPT ![c] = b]
               /\ \E k \in e[c]..Avail(c) : Cum(c, k) = b /\ e' = [e EXCEPT ![c] = k]      \* only what was written
               /\ tm' = [tm EXCEPT ![c] = IF Ev.err = "none" THEN @ ELSE IF Ev.err = "reset" THEN "timeout" ELSE Ev.err]
-       /\ UNCHANGED <<h, wb, cl, das, hs, out, du, uout, ucur, stop>>
+       /\ UNCHANGED <<h, wb, cl, das, hs, out, du, uout, ucur, stop, scl>>
 \* T1
 TDispTcp == /\ Is("disp") /\ stop # "ret"
             /\ \E c \in CC : /\ hs[c] = "run"
                              /\ \E r \in NextItems(h.sym[c], e[c], tm[c], out[c]) :
                                    /\ Cat(h.frag[c], r[1], r[2]) = Ev.line
                                    /\ out' = [out EXCEPT ![c] = Append(@, r)]
-            /\ UNCHANGED <<h, wb, cl, das, hs, rb, e, tm, du, uout, ucur, stop>>
+            /\ UNCHANGED <<h, wb, cl, das, hs, rb, e, tm, du, uout, ucur, stop, scl>>
 TDispUdp == /\ Is("disp") /\ stop # "ret" /\ ucur # 0
             /\ \E r \in NextItems(h.dsym[ucur], Len(h.dsym[ucur]), "eof", uout[ucur]) :
                   /\ Cat(h.dfrag[ucur], r[1], r[2]) = Ev.line
                   /\ uout' = [uout EXCEPT ![ucur] = Append(@, r)]
-            /\ UNCHANGED <<h, wb, cl, das, hs, rb, e, tm, out, du, ucur, stop>>
+            /\ UNCHANGED <<h, wb, cl, das, hs, rb, e, tm, out, du, ucur, stop, scl>>
 \* T2
 THret == /\ Is("hret") /\ hs[Ev.c] = "run" /\ tm[Ev.c] # "none"
          /\ ConnOK(h.sym[Ev.c], e[Ev.c], tm[Ev.c], out[Ev.c])
          /\ hs' = [hs EXCEPT ![Ev.c] = "ret"]
-         /\ UNCHANGED <<h, wb, cl, das, rb, e, tm, out, du, uout, ucur, stop>>
+         /\ UNCHANGED <<h, wb, cl, das, rb, e, tm, out, du, uout, ucur, stop, scl>>
 TUsb == /\ Is("usb") /\ du[Ev.d] = "none" /\ du' = [du EXCEPT ![Ev.d] = "sent"]
-        /\ UNCHANGED <<h, wb, cl, das, hs, rb, e, tm, out, uout, ucur, stop>>
+        /\ UNCHANGED <<h, wb, cl, das, hs, rb, e, tm, out, uout, ucur, stop, scl>>
 \* a datagram is handled at most once, only after it was sent, never after StopReturn
 TUstart == /\ Is("ustart") /\ stop # "ret" /\ ucur = 0
            /\ \E d \in DD : /\ du[d] = "sent" /\ Cat(h.dfrag[d], 1, Len(h.dfrag[d])) = Ev.data
                             /\ du' = [du EXCEPT ![d] = "handling"] /\ ucur' = d
-           /\ UNCHANGED <<h, wb, cl, das, hs, rb, e, tm, out, uout, stop>>
+           /\ UNCHANGED <<h, wb, cl, das, hs, rb, e, tm, out, uout, stop, scl>>
 TUret == /\ Is("uret") /\ ucur # 0 /\ uout[ucur] \in Acceptable(h.dsym[ucur], "eof")
          /\ du' = [du EXCEPT ![ucur] = "done"] /\ ucur' = 0
-         /\ UNCHANGED <<h, wb, cl, das, hs, rb, e, tm, out, uout, stop>>
+         /\ UNCHANGED <<h, wb, cl, das, hs, rb, e, tm, out, uout, stop, scl>>
 \* T5
 Served(c) == /\ hs[c] = "ret" /\ cl[c]
              /\ (tm[c] = "eof" => e[c] = Len(h.sym[c]) /\ out[c] = Lines(h.sym[c]))
@@ -127,15 +128,17 @@ TBarrier == /\ Is("barrier") /\ stop = "no"
                    gmust == IF Ev.phase = "pre" THEN h.gmust_pre ELSE h.gmust_post
                IN  /\ \A i \in 1..Len(must) : Served(must[i])
                    /\ \A i \in 1..Len(gmust) : \E d \in DD : h.dgrp[d] = gmust[i] /\ du[d] = "done"
-            /\ UNCHANGED <<h, wb, cl, das, hs, rb, e, tm, out, du, uout, ucur, stop>>
+                   \* (3) with a read timeout configured, the idle connections of the phase have been closed by the relay
+                   /\ (Ev.phase = "pre" /\ h.rt_us > 0) => \A i \in 1..Len(h.idle_pre) : scl[h.idle_pre[i]]
+            /\ UNCHANGED <<h, wb, cl, das, hs, rb, e, tm, out, du, uout, ucur, stop, scl>>
 TStopCall == /\ Is("stopcall") /\ stop = "no" /\ stop' = "called"
-             /\ UNCHANGED <<h, wb, cl, das, hs, rb, e, tm, out, du, uout, ucur>>
+             /\ UNCHANGED <<h, wb, cl, das, hs, rb, e, tm, out, du, uout, ucur, scl>>
 \* T4
 TStopRet == /\ Is("stopret") /\ stop = "called" /\ Ev.ok
             /\ \A c \in CC : hs[c] # "run"
             /\ ucur = 0
             /\ stop' = "ret"
-            /\ UNCHANGED <<h, wb, cl, das, hs, rb, e, tm, out, du, uout, ucur>>
+            /\ UNCHANGED <<h, wb, cl, das, hs, rb, e, tm, out, du, uout, ucur, scl>>
 
 TNext == THist \/ TSkip \/ TDial \/ TConn \/ TWb \/ TCclose \/ TSclosed \/ THstart \/ TRd \/ TDispTcp \/ TDispUdp
          \/ THret \/ TUsb \/ TUstart \/ TUret \/ TBarrier \/ TStopCall \/ TStopRet
